@@ -4,6 +4,7 @@
 package vapi
 
 import (
+	"runtime"
 	"time"
 
 	"encoding/hex"
@@ -192,6 +193,9 @@ func Min(a, b int) int {
 
 // Advance moves the virtual clock forward (engine only; natively the wall clock cannot be steered).
 func Advance(d time.Duration) {}
+
+// Yield lets every other goroutine run until it blocks (engine); natively it yields the processor.
+func Yield() { runtime.Gosched() }
 
 // Elapsed is the virtual time since the start of the path, in nanoseconds.
 func Elapsed() int64 { return 0 }
